@@ -28,7 +28,7 @@ MANIFEST = {
 
 REQUIRED = ["KV.C18.kSpaces_table", "KV.C18.initMapSize_observed", "KV.C18.window_inv", "KV.C18.op_transparent",
             "KV.C18.transcript_fn", "KV.C18.after_eof", "KV.C18.shift_progress", "KV.C18.ops_terminate",
-            "KV.C18.compressed_concat", "KV.C18.tokenizer_total", "KV.C18.lineIterator_total", "KV.C18.lineInput_blocks",
+            "KV.C18.compressed_concat", "KV.C18.compressed_concat_concrete", "KV.C18.tokenizer_total", "KV.C18.lineIterator_total", "KV.C18.lineInput_blocks",
             "KV.C18.integer_grammars_ok", "KV.C18.nan_not_prefix_determined", "KV.C18.concrete_grammar_ok",
             "KV.C18.op_transparent_on", "KV.C18.transcript_fn_on", "KV.C18.transcript_fn_concrete", "KV.C18.Old.offset_after_compaction", "KV.C18.Old.spurious_eof", "KV.C18.Old.offset_after_mmap_fallback",
             "KV.C18.Old.not_transparent", "KV.C18.kMagicSize_eq"]
